@@ -421,7 +421,7 @@ def project(s, reg):
         sbl = []
         for bl in s.blobs:
             row = []
-            for x in bl:
+            for x in np.atleast_1d(np.asarray(bl)):
                 try:
                     row.append(m.decode_blob(x))
                 except Exception:
@@ -452,13 +452,13 @@ def project(s, reg):
         for k, u in enumerate(p):
             if m.loglike_of_level(m.unit_level(u)) != s.log_l[i][k]:
                 mis += 1
-            elif s.blobs is not None and i < len(s.blobs) and k < len(s.blobs[i]):
+            elif s.blobs is not None and i < len(s.blobs) and k < len(np.atleast_1d(s.blobs[i])):
                 try:
-                    if m.decode_blob(s.blobs[i][k]) != m.unit_code(u):
+                    if m.decode_blob(np.atleast_1d(s.blobs[i])[k]) != m.unit_code(u):
                         mis += 1
                 except Exception:
                     mis += 1
-        if s.blobs is not None and (i >= len(s.blobs) or len(s.blobs[i]) != len(p)):
+        if s.blobs is not None and (i >= len(s.blobs) or np.ndim(s.blobs[i]) == 0 or len(s.blobs[i]) != len(p)):
             mis += 1
         if len(s.log_l[i]) != len(p):
             mis += 1
@@ -479,7 +479,7 @@ def project(s, reg):
     if (reg.run['active'] or reg.pc_returning) and reg.neff_target is not None and len(s.bounds) > 0:
         with np.errstate(all='ignore'):
             try:
-                reg.neff_met = bool(s.n_eff >= reg.neff_target)
+                reg.neff_met = bool(s.explored) and bool(s.n_eff >= reg.neff_target)
             except Exception:
                 reg.neff_met = False
     state['neffMet'] = bool(reg.neff_met)
